@@ -30,6 +30,9 @@ def fs(st):
     return w
 
 
+NORMPATH = z3.Function('os_path_normpath', z3.StringSort(), z3.StringSort())
+
+
 class FsMixin:
     FAULT_OPS = None    # None: every file operation may raise OSError; else the set of ops that may
 
@@ -48,6 +51,7 @@ class FsMixin:
                              'split': E('os.path.split', self.op_split),
                              'getsize': E('os.path.getsize', self.op_getsize),
                              'exists': E('os.path.exists', self.op_exists),
+                             'normpath': E('os.path.normpath', self.op_normpath),
                              'expanduser': E('os.path.expanduser', self.op_identity),
                              'expandvars': E('os.path.expandvars', self.op_identity)})
         om = self.env.obj_methods
@@ -86,6 +90,17 @@ class FsMixin:
         tail = it.st.fresh('basename', STR)
         self.env.use('os.path.split: some (head, tail) pair (no fact about them is used)')
         return (SV('str', head), SV('str', tail))
+
+    def op_normpath(self, it, a, k):
+        p = a[0]
+        if isinstance(p, str):
+            import posixpath
+            return posixpath.normpath(p)
+        # some other spelling of the same path: an uninterpreted function of the string ('..', '.', '//'
+        # are collapsed), equal to the argument only for paths that are already normal
+        self.env.use('os.path.normpath: an unspecified function of the path string')
+        from .values import term_of
+        return SV('str', NORMPATH(term_of(p)))
 
     def op_identity(self, it, a, k):
         self.env.use("os.path.expanduser/expandvars: identity on paths without '~' and '$' (requires)")
